@@ -758,12 +758,12 @@ def r7_link(program, rep):
 
 
 def check(program, rep):
-    r1_commits(program, rep)
-    r2_kernel(program, rep)
-    r3_dispatch(program, rep)
-    r4_pairing(program, rep)
-    r5_reservations(program, rep)
-    r6_raises(program, rep)
-    r7_link(program, rep)
+    rep.guard("C02-R1", r1_commits, program, rep)
+    rep.guard("C02-R2", r2_kernel, program, rep)
+    rep.guard("C02-R3", r3_dispatch, program, rep)
+    rep.guard("C02-R4", r4_pairing, program, rep)
+    rep.guard("C02-R5", r5_reservations, program, rep)
+    rep.guard("C02-R6", r6_raises, program, rep)
+    rep.guard("C02-R7", r7_link, program, rep)
     return finish(rep, program, EXPLANATION, NOT_DECIDED,
                   trusted=["resource-role table in rules/C02.py"])
